@@ -32,8 +32,12 @@ def op_unfold(c):
     return o
 
 
+UNIVERSES = {}
+
+
 def _entries(c):
-    return ['/'.join(dec(p) for p in e) for e in c['L']]
+    L = UNIVERSES[c['univ']] if c.get('univ') else c['L']
+    return ['/'.join(dec(p) for p in e) for e in L]
 
 
 def op_findlist(c):
@@ -60,3 +64,45 @@ def op_match(c):
     sid = Sid('/'.join(dec(p) for p in c['entry']))
     r, err = guard(lambda: sid.match(s))
     return dict(err=err, value=bool(r), typed=bool(sid))
+
+
+def _finder(c):
+    kind = c.get('finder', 'list')
+    if kind == 'list':
+        return FindInList(_entries(c))
+    raise ValueError(kind)
+
+
+def op_algebra(c):
+    """C10: a search and the searches the algebra relates it to, on the same data"""
+    finder = _finder(c)
+
+    def run(search):
+        s = render_search(search)
+        r, err = guard(lambda: list(finder.find(s, as_sid=False)))
+        return dict(err=err, res=[_segs(x) for x in (r or [])], s=enc(s))
+    o = run(c['search'])
+    o['parts'] = [run(p) for p in c['parts']]
+    return o
+
+
+def op_extrapolate(c):
+    """C19: one template configuration through the real extrapolate_templates / pattern_replacing"""
+    from spil.conf.util import extrapolate_templates, pattern_replacing
+    cfg = c['cfg']
+    tpl = {t['name']: '/'.join(t['ph']) for t in cfg['templates']}
+    tox = list(cfg['toX'])
+    o = {}
+    r, err = guard(lambda: extrapolate_templates(dict(tpl), tox))
+    o['err'] = err
+    o['out'] = [[k, v.split('/')] for k, v in (r or {}).items()]
+    if not err:
+        kps = {e['sel']: {f: rp for f, rp in e['pairs']} for e in cfg['kps']}
+        d = dict(r)
+        _, err2 = guard(lambda: pattern_replacing(d, kps))
+        o['err2'] = err2
+        o['replaced'] = [[k, v.split('/')] for k, v in d.items()]
+    else:
+        o['err2'] = ''
+        o['replaced'] = []
+    return o
